@@ -133,4 +133,44 @@ PROPS = {
                    'about the Lean model; the string layer (read_sig / func_code / s / f / func_from_sig) is validated by round trips only (partial).',
         level_note=NOTE + 'the string/regex/exec layer of support; the value-level binder model.',
     ),
+    'C14': dict(
+        title='drop-in inspect objects', proj='proj_full', oracle='c14',
+        quick=[S_('eq'), S_('sigcmp')],
+        thorough=[S_('eq'), S_('sigcmp')],
+        runtime_part='inherited str()/bind()/bind_partial() (compared with a plain inspect.Signature over the universe x call shapes), attribute storage of replace()',
+        level_text='The ==/!=/hash protocol (reflected operand first, NotImplemented fall-backs) of upgraded vs plain objects is modelled and its laws (total, reflexive, '
+                   'symmetric, consistent with hash, hashable like the plain counterpart) are theorems; the model is compared with real ==, != and hash over a menagerie; '
+                   'str/bind/bind_partial/replace are validated differentially against plain inspect objects (partial).',
+        level_note=NOTE + 'the inherited inspect.Signature methods; `data` tokens abstract _hash_basis equality.',
+    ),
+    'C16': dict(
+        title='no mutation, even on failure', proj='proj_full', oracle='c16',
+        quick=[S_('cleanup'), S_('faults'), S_('alias', count=6000)],
+        thorough=[S_('cleanup'), S_('faults'), S_('alias', count=60000)],
+        runtime_part='which calls cross into outside code (the injector patches inspect.signature, inspect.getsource, ast.parse, user forgers and attribute getters), real attribute storage',
+        level_text='cleanup_functools_wrapper + the as_forged guard are a step machine with a crash possible at every outside call: "attributes and guard are restored for every crash '
+                   'point" is a theorem; the real context manager is compared with the model for every store shape x crash point, whole retrievals are run with an exception injected at '
+                   'each successive outside call (exhaustive per scenario), and the algebra is checked for input mutation / aliasing by deep snapshots (partial).',
+        level_note=NOTE + 'which operations are outside calls; asynchronous exceptions between two statements are outside the fault model (as the property says).',
+    ),
+    'C17': dict(
+        title='concurrent retrieval', proj='proj_full', oracle='c17',
+        quick=[S_('sched'), S_('threads_rt', nc=4)],
+        thorough=[S_('sched'), S_('threads_rt', nc=8)],
+        runtime_part="the interpreter's scheduler below line granularity; WeakValueDictionary's internal locking",
+        level_text='The save/restore program run by N threads under an arbitrary schedule is a Lean model: restoration at quiescence is a theorem for any number of threads and any '
+                   'schedule; the sequential-answer clause is refuted for the delete/restore window (finding D6, theorem sequential_answers_refuted). Real threads are single-stepped at '
+                   'line granularity (all schedules with <= 2 preemptions), the model replays the logged order of shared accesses and must predict every answer (partial).',
+        level_note=NOTE + 'preemption inside a single bytecode; the GIL scheduler.',
+    ),
+    'C18': dict(
+        title='order / history independence, no retention', proj='proj_full', oracle='c18',
+        quick=[S_('cache', maxlen=3), S_('modorder'), S_('pokm')],
+        thorough=[S_('cache', maxlen=4), S_('modorder'), S_('pokm')],
+        runtime_part='the garbage collector and weakref callbacks (observed through weak references after gc.collect())',
+        level_text='The descriptor cache is a heap-reachability model over arbitrary operation histories: no retention with the weak-value dictionary is a theorem (and retention with the '
+                   'pinned weak-key one is its refutation, D7, repaired); order independence of stacked modifiers is the theorem prepare_set_ext. Real histories (all of length <= 3/4 over '
+                   'two instances x four descriptor kinds, plus seeded longer ones) are compared with the model through weak references (partial).',
+        level_note=NOTE + 'the garbage collector, weakref.',
+    ),
 }
